@@ -4,6 +4,7 @@
 mod c05;
 mod c05b;
 mod c16;
+mod c17;
 mod harness;
 
 use mc_core::{Report, Tier};
@@ -21,6 +22,7 @@ fn main() {
         match cli.property.as_str() {
             "C05" => c05::run_group(&mut tasks, group),
             "C16" => c16::run_group(&mut tasks, group),
+            "C17" => c17::run_group(&mut tasks, group),
             other => mc_core::machinery_error(&format!("mc-codec worker does not serve {other}")),
         }
         let ctx = tasks.run();
@@ -31,6 +33,7 @@ fn main() {
     let groups: Vec<String> = match cli.property.as_str() {
         "C05" => c05::GROUPS.iter().map(|s| s.to_string()).collect(),
         "C16" => c16::GROUPS.iter().map(|s| s.to_string()).collect(),
+        "C17" => c17::GROUPS.iter().map(|s| s.to_string()).collect(),
         other => mc_core::machinery_error(&format!("mc-codec does not serve property {other}")),
     };
     let only = cli.extra.get("group").cloned();
@@ -56,6 +59,14 @@ fn main() {
             report.set_rule("one case = one byte string decoded, one candidate text parsed, or one arithmetic operation; verdicts must agree with the reference (round trip / canonical re-encoding / grammar / 128-bit arithmetic)");
             report.assume("duration strings whose components or sum exceed 64 bits are outside the claim (observation O4)");
             report.assume("hash collections have no canonical encoding (iteration order); only round trip and totality are required of them");
+        }
+        "C17" => {
+            report.sample(json!({"type": "cbor::Value", "value": "Tag(4, Array([Negative(5), Positive(18446744073709551615)]))", "expected": "round trip, deterministic encoding, trailing byte rejected"}));
+            report.sample(json!({"type": "TokenOperations", "sequence": [1, 11, 9], "expected": "round trip incl. the unknown operation, byte-identical re-encoding"}));
+            report.set_technique("exhaustive enumeration of all cbor::Value trees with <= 3 nodes over a 47-leaf boundary alphabet (and 4/5 nodes over 8 leaves), nesting chains to depth 64, a table of CBOR encoding deviations judged by the data model, structural value sets of every protocol-level token type with field-level deviations (each field removed / ill-typed / duplicated, undeclared fields under both decoding options), all token operation sequences of length <= 2/3 over 11 known and one unknown operation, token amounts on a (value, decimals) grid across CBOR / decimal string / JSON / rust_decimal, and the byte neighbourhood of encodings (as C05)");
+            report.set_rule("one case = one value encoded and decoded, one deviation, one operation sequence, or one hostile byte string; round trips must be exact, encodings deterministic, trailing data rejected, deviations rejected or decoded to the data-model value, accepted hostile inputs must survive an encode / decode cycle");
+            report.assume("NaN payloads and the simple values 20-22 written as Simple(_) are not generated (data-model identities)");
+            report.assume("nesting deeper than 64 is outside the claim (observation O3)");
         }
         _ => {}
     }
